@@ -95,7 +95,8 @@ class NNVariationalStrategy(UnwhitenedVariationalStrategy):
         # Model
         object.__setattr__(self, "model", model)
 
-        self.inducing_points = inducing_points
+        # (the base class has registered a copy of `inducing_points` as a buffer: it is not replaced by the caller's
+        # tensor, which a later load_state_dict would otherwise write into)
         self.M, self.D = inducing_points.shape[-2:]
         self.k = k
         assert self.k < self.M, (
